@@ -9,7 +9,8 @@ RULE = ("remote: address groups drawn from a 10-token alphabet with blanks, case
         "modelled zone of net/url (model says accept or reject, not unspecified)")
 TRUSTED = ["modelled, not verified: strings.TrimSpace/ToLower on ASCII (bytes >= 128 are not generated for addresses)",
            "modelled, not verified: net/url.Parse + net.SplitHostPort inside the zone scheme://[A-Za-z0-9.-:]*[/path]; outside it only the property predicate is evaluated",
-           "section hypothesis: rand.Perm returns a permutation"]
+           "section hypothesis: rand.Perm returns a permutation",
+           "GoLite refinement (C18_source_*): the generic statement translator in go/gen prints what it walked (unsupported constructs become explicit nodes, proved absent); slices have value semantics; the mutex is a pair of counters and one call runs alone; int is 64 bits"]
 ASSUMPTIONS = ["rand.Perm(n) returns a permutation of 0..n-1", "sync.Mutex gives mutual exclusion (concurrent cases check the multiset only)"]
 
 TOKENS = ["a", "B", " a ", "", "  ", "c:1", "A", "b\t", "x.y:2", "C:1"]
